@@ -57,6 +57,7 @@ pub fn op_from_str(s: &str) -> Option<Op> {
 }
 
 pub const FAKE_VAL: u32 = 0xFA;
+pub static BIG_N: std::sync::atomic::AtomicUsize = std::sync::atomic::AtomicUsize::new(0);
 
 /// The one source line per N.  All lifetimes of a history go through the same line, whether the
 /// pair is installed at once or kept for a later lifetime.
@@ -67,7 +68,9 @@ fn build_site(n: usize) -> (FuncPtr, CallCountVerifier) {
         1 => inj::fake!(func_type: fn(x: u32) -> u32, when: x == 1, returns: 0xFA, times: 1),
         2 => inj::fake!(func_type: fn(x: u32) -> u32, when: x == 1, returns: 0xFA, times: 2),
         3 => inj::fake!(func_type: fn(x: u32) -> u32, when: x == 1, returns: 0xFA, times: 3),
-        _ => panic!("harness: no site for N={n}"),
+        // large budgets (`--big`): one more source line whose N is read from a static, so that budgets
+        // around 2^8 and 2^16 can be exercised (a narrower counter or a packed word would show there)
+        _ => inj::fake!(func_type: fn(x: u32) -> u32, when: x == 1, returns: 0xFA, times: crate::e3_times::BIG_N.load(std::sync::atomic::Ordering::SeqCst)),
     }
 }
 
